@@ -227,7 +227,7 @@ class Ctx:
 GEN_FILES = {
     'numeric': ['ToolsReal.lean', 'ToolsFloat.lean', 'LaueReal.lean', 'LaueFloat.lean', 'DetectorReal.lean', 'DetectorFloat.lean',
                 'StructureReal.lean', 'StructureFloat.lean', 'ChecksReal.lean', 'ChecksFloat.lean', 'FloatDispatch.lean', 'numeric_meta.json'],
-    'hkl': ['Sysabs.lean', 'Segm.lean', 'hkl_meta.json'], 'guards': ['Guards.lean'], 'flip': ['FlipTable.lean'], 'symmetry': ['Symmetry.lean'],
+    'hkl': ['Sysabs.lean', 'Segm.lean', 'hkl_meta.json'], 'guards': ['Guards.lean'], 'flip': ['FlipTable.lean'], 'names': ['NameCerts.lean'], 'symmetry': ['Symmetry.lean'],
     'pdbsym': ['PdbSymbols.lean'], 'c14': ['C14Ast.lean', 'c14_meta.json'], 'tables': ['Sg', 'Atomlib.lean', 'tables_meta.json'],
     't51': ['T51', 't51_meta.json'], 't54': ['T54', 't54_meta.json'],
 }
